@@ -9,6 +9,7 @@ single threaded; no clocks are involved).
 import itertools
 import json
 import os
+import weakref
 
 _target = os.environ.get("GPYTORCH_VERIF_TRACE")
 ON = bool(_target)
@@ -25,7 +26,20 @@ def oid(obj, new=False):
     k = id(obj)
     if new or k not in _ids:
         _ids[k] = next(_oid)
+        try:  # id() values are recycled: forget the number when the object dies
+            weakref.finalize(obj, _ids.pop, k, None)
+        except TypeError:
+            pass
     return _ids[k]
+
+
+def cache_event(ev, obj, name):
+    """fill / hit / pop / clear of a cache entry `name` owned by `obj`."""
+    emit(ev, owner=oid(obj), cls=type(obj).__name__, name=getattr(name, "__name__", None) or str(name))
+
+
+def owner_event(ev, obj, **fields):
+    emit(ev, owner=oid(obj), cls=type(obj).__name__, **fields)
 
 
 def emit(ev, **fields):
